@@ -23,7 +23,10 @@ def sh(cmd, cwd=None, timeout=3000):
     return p.returncode, p.stdout
 
 
+only = args[args.index("--only") + 1] if "--only" in args else None
 for X in ("A", "B"):
+    if only and X != only:
+        continue
     patch = os.path.join(wt, "patch%s.diff" % X)
     demo = "demo_%s_%s" % (pid, X)
     if not os.path.exists(patch) or not os.path.exists(os.path.join(wt, "tests", demo + ".rs")):
@@ -45,7 +48,7 @@ for X in ("A", "B"):
     doc_ok = "0 failed" in out
     rc1, out1 = sh("cargo test --offline --test %s 2>&1 | grep -E 'test result|panicked' | head -3" % demo, cwd=wt)
     ran.append(("cargo test --offline --test %s (with change)" % demo, out1.strip()))
-    fails_with = "FAILED" in out1 or "failed" in out1
+    fails_with = "FAILED" in out1 or "failed" in out1 or "panicked" in out1
     sh("git checkout -- src example.png", cwd=wt)
     rc2, out2 = sh("cargo test --offline --test %s 2>&1 | grep -E 'test result|panicked' | head -3" % demo, cwd=wt)
     ran.append(("cargo test --offline --test %s (without change)" % demo, out2.strip()))
